@@ -25,7 +25,7 @@ import lua_ir as LI
 from extract_lua import extract_lua
 from core import g_model
 
-PRELUDE = """From FP Require Import LuaOracle Lua LuaFrag.
+PRELUDE = """From FP Require Import LuaOracle Lua LuaFrag LuaFrag2.
 From Coq Require Import String List NArith.
 Import ListNotations.
 Open Scope string_scope.
@@ -249,6 +249,7 @@ def oracle(observed, use_model=False, seed=0, tag="lua_oracle", chunk=24):
     pids = [pid for pid, o in observed.items() if "skipped" not in o and "prog" in o]
     results = []
     frags = {}
+    proved = {}
     for c0 in range(0, len(pids), chunk):
         body = []
         index = []
@@ -260,7 +261,7 @@ def oracle(observed, use_model=False, seed=0, tag="lua_oracle", chunk=24):
                 body.append("Definition P_%s : lprog := gen_lua %s." % (mn, mn))
             else:
                 body.append("Definition P_%s : lprog := %s." % (mn, LI.g_lprog(o["prog"])))
-            body.append('Eval vm_compute in ("<<<frag|%s>>>" ++ show_bool (lua_frag %s) ++ show_bool (lua_frag_strict %s)).' % (pid, mn, mn))
+            body.append('Eval vm_compute in ("<<<frag|%s>>>" ++ show_bool (lua_frag %s) ++ show_bool (lua_frag_strict %s) ++ show_bool (lua_frag2 %s) ++ show_bool (lua_frag4 %s)).' % (pid, mn, mn, mn, mn))
             root = root_of(o["model"])
             if root is None:
                 continue
@@ -283,7 +284,8 @@ def oracle(observed, use_model=False, seed=0, tag="lua_oracle", chunk=24):
         for k, v in got.items():
             if k.startswith("frag|"):
                 frags[k[5:]] = (v[0] == "T", v[1] == "T")
-    return {"results": results, "frags": frags}
+                proved[k[5:]] = (v[2:3] == "T", v[3:4] == "T")
+    return {"results": results, "frags": frags, "proved": proved}
 
 
 def err_class(detail):
@@ -433,6 +435,15 @@ def main():
             bad.append((pid, "lua_frag_strict but strict disagrees"))
         if all_run and not fr[0]:
             tight.append(pid)
+    # the PROVED fragments (Proofs/LuaFrag2.v: lua_frag2_correct, lua_frag4_correct): inside them every
+    # typed sample message must agree - anything else contradicts a theorem (= an error of this harness)
+    pr = orc.get("proved", {})
+    n2 = sum(1 for pid in per if pr.get(pid, (False, False))[0])
+    n4 = sum(1 for pid in per if pr.get(pid, (False, False))[1])
+    for pid, d in per.items():
+        if pr.get(pid, (False, False))[1] and not (set(d[False]) <= {"Agree", "NotAMessage"}):
+            bad.append((pid, "inside lua_frag4 (PROVED correct) but a sample message disagrees: theorem contradicted"))
+    print("  programs inside the proved fragments: lua_frag2 %d, lua_frag4 %d (of %d)" % (n2, n4, len(per)))
     print("  frag violated:", bad)
     print("  all sampled messages agree (run) but lua_frag false:", tight)
     ok_all = not res["mismatches"] and not bad and missed == 0 and t1_ok and not newdev
